@@ -13,9 +13,10 @@
 //     it is bound), and the answers of GetLatestStatus / FindByRequestID after the run;
 //   - the agent's own final in-memory status.
 //
-// Cases of kind "race" ask the recording wrapper to hold the k-th Write call for a while BEFORE it reaches the
-// store (the snapshot has been computed by the agent, the writer's lock is not yet taken): this is the window
-// of DESIGN.md F8b/F8c made wide enough to be hit deterministically.
+// Cases of kind "race" ask the recording wrapper to hold the first-status goroutine's Write call BEFORE it reaches the
+// store (the snapshot has been computed by the agent) until the main thread's final Write has happened, or a timeout:
+// the window of DESIGN.md F8b/F8c made wide enough to be hit deterministically.  Since 7f2c2d0 the agent collects and
+// appends under one lock, so the final Write cannot happen while the held one is pending (the hold then times out).
 package main
 
 import (
@@ -319,14 +320,15 @@ func (h *recHist) Open(f string, t time.Time, id string) error {
 	return err
 }
 
-// caller returns the agent function that called the history store (skipping this wrapper).
+// caller returns the agent function on whose behalf the history store was called (skipping this wrapper and the agent's
+// own writeStatus helper, through which every snapshot goes since 7f2c2d0).
 func caller() string {
-	pc := make([]uintptr, 12)
+	pc := make([]uintptr, 16)
 	n := runtime.Callers(3, pc)
 	fr := runtime.CallersFrames(pc[:n])
 	for {
 		f, more := fr.Next()
-		if strings.Contains(f.Function, "/internal/agent.") {
+		if strings.Contains(f.Function, "/internal/agent.") && !strings.HasSuffix(f.Function, ".writeStatus") {
 			i := strings.LastIndex(f.Function, "/internal/agent.")
 			return f.Function[i+len("/internal/agent."):]
 		}
@@ -684,7 +686,7 @@ func genCase(k int, r *vh.Rng, kind string) *Case {
 		if r.Chance(1, 2) {
 			c.Handlers = []string{"exit"}
 		}
-		c.HoldMs = 3000
+		c.HoldMs = 1200
 	}
 	return c
 }
